@@ -107,7 +107,7 @@ theorem cur_shrink_core {M : Nat} {s : Sys} {olds : List Nat} {v : View} (h : Go
 /-- the set fails while the current worker is in normal mode: what it holds is bounced (and reaches the retries
     queue before whatever the old workers still have to bounce), what is in its queue will be bounced -/
 theorem cur_fail_core {M : Nat} {s : Sys} {olds : List Nat} {v : View} (h : GoodC M s olds v) (c : Nat)
-    (hc : s.cur = some c) (hn : BrokerProd.needsRetry (s.wk c).bp 0 = false) (hnp : (s.wk c).bp ≠ {})
+    (hc : s.cur = some c) (hn : BrokerProd.needsRetry (s.wk c).bp 0 = false) (hnp : (s.wk c).bp = {} → headSyn (s.wk c).inq = false)
     (b' : BrokerProd.St)
     (hpinv : Props.C02bp.PInv b') (hi : insideB b' = [])
     (hmode : b'.closing = true ∨ (b'.closing = false ∧ b'.cr 0 = true ∧ insW s c ≠ []))
@@ -141,9 +141,11 @@ theorem cur_fail_core {M : Nat} {s : Sys} {olds : List Nat} {v : View} (h : Good
         rw [bump_retries]; omega)
       (fun z hz => hle z (mem_data.1 hz).1)
     have hmk : mk = [] := by
-      rcases h6 with e1 | ⟨_, e2⟩
+      rcases h6 with e1 | ⟨e1, e2⟩
       · exact e1
-      · exact absurd e2 hnp
+      · have := hnp e2
+        rw [h4, e1] at this
+        simp [headSyn, synTok] at this
     subst hmk
     have hq : (s.wk c).inq = G := by rw [h4]; simp
     have hins' : insW (deliverSw M s c b' (insW s c) sc e) c = [] := by simp [insW, hww, hi]
